@@ -7,7 +7,7 @@ use serde_json::json;
 
 use crate::{ToolInvocation, ToolOutput};
 
-use super::{parse_args, truncate_utf8, BuiltinToolConfig};
+use super::{parse_args, truncate_utf8, utf8_page_len, BuiltinToolConfig};
 
 #[derive(Deserialize)]
 struct ArtifactFetchArgs {
@@ -56,9 +56,13 @@ pub(super) fn run_artifact_fetch(
         Err(err) => return ToolOutput::failure(vec![format!("artifact_fetch failed: {err}")]),
     };
     buf.truncate(read_bytes);
+    if (offset + read_bytes as u64) < total_bytes {
+        // More content follows: a character straddling the page boundary belongs to the next page.
+        buf.truncate(utf8_page_len(&buf));
+    }
 
     let (content, utf8_truncated, used_bytes) = truncate_utf8(&buf, max_bytes);
-    let truncated = utf8_truncated || (offset + read_bytes as u64) < total_bytes;
+    let truncated = utf8_truncated || (offset + used_bytes as u64) < total_bytes;
 
     ToolOutput {
         stdout: vec![content],
